@@ -1300,3 +1300,64 @@ func ruleIOOWNER(p *Program, rep *Report) {
 		rep.Unknown("IO-OWNER", "anchor", "", "no WriteAt / Sync on the data file found in package txfile (anchor lost)")
 	}
 }
+
+// ---- DELEGATE-ROLES (C13) ----
+
+// ruleDELEGATEROLES: the reader and the planning phase of an ACK run inside Delegate.BeginRead transactions
+// while the producer flushes; that only works because BeginRead hands out READ-ONLY transactions (any number
+// of them run beside the one writer).  A BeginRead that returns a write transaction serialises producer and
+// consumer on the writer lock — and an ACK (read tx, then cleanup tx) blocks on itself.
+func ruleDELEGATEROLES(p *Program, rep *Report) {
+	rep.Rule("DELEGATE-ROLES", 1, "standaloneDelegate.BeginRead returns a transaction obtained from File.BeginReadonly (or BeginWith with the constant option Readonly: true)")
+	fn := p.Method("pq", "standaloneDelegate", "BeginRead")
+	beginRO := p.Method("txfile", "File", "BeginReadonly")
+	beginWith := p.Method("txfile", "File", "BeginWith")
+	ro := p.FieldVar("txfile", "TxOptions", "Readonly")
+	rep.Analysed(funcName(fn))
+	ok, n := true, 0
+	for f := range staticReach(p, fn) {
+		if fnPkgPath(f) != modPath+"/pq" {
+			continue
+		}
+		for _, b := range f.Blocks {
+			for _, ins := range b.Instrs {
+				c, isCall := ins.(ssa.CallInstruction)
+				if !isCall {
+					continue
+				}
+				switch c.Common().StaticCallee() {
+				case beginRO:
+					n++
+				case beginWith:
+					n++
+					isRO := false
+					for _, b2 := range f.Blocks {
+						for _, i2 := range b2.Instrs {
+							if st, isSt := i2.(*ssa.Store); isSt && addrField(st.Addr) == ro {
+								if bv, isC := constBoolOf(st.Val); isC && bv {
+									isRO = true
+								}
+							}
+						}
+					}
+					if !isRO {
+						ok = false
+					}
+				default:
+					if sc := c.Common().StaticCallee(); sc != nil && fnPkgPath(sc) == modPath && strings.HasPrefix(sc.Name(), "Begin") {
+						ok = false
+						n++
+					}
+				}
+			}
+		}
+	}
+	switch {
+	case n == 0:
+		rep.Unknown("DELEGATE-ROLES", "standaloneDelegate.BeginRead", p.Pos(fn.Pos()), "BeginRead starts no transaction (anchor lost)")
+	case ok:
+		rep.OK("DELEGATE-ROLES", "standaloneDelegate.BeginRead", p.Pos(fn.Pos()), "read-only transaction")
+	default:
+		rep.Bad("DELEGATE-ROLES", "standaloneDelegate.BeginRead", p.Pos(fn.Pos()), "Delegate.BeginRead can return a write transaction: reader, ACK planning and producer then serialise on the single writer lock (an ACK's cleanup transaction waits for its own planning transaction; producer and consumer block each other)")
+	}
+}
